@@ -72,6 +72,14 @@
 // succeed returns nil, (c) and then the destination - read back under its
 // shortest name from the innermost file system - has the bytes and the
 // permission bits of the source.
+//
+// Round 11. (1) The CLASS of the injected error is part of the error-kind
+// dimension (errKindsClass): values for which errors.Is(err, fs.ErrNotExist)
+// resp. fs.ErrExist holds reach the branches that "tolerate" such an error;
+// an opaque sentinel never does. (2) The permission bits the oracle expects
+// are the ones the set-up ASKED for, not the ones read through Stat of the
+// source's file system, the accessor the copy itself uses; a read-back that
+// differs is a violation (h, kind mode-readback), see putFile.
 package main
 
 import (
@@ -152,6 +160,10 @@ type kit struct {
 	dir     string         // working directory in top's name space
 	rawDir  string         // the same directory in raw's name space
 	cleanup func()
+
+	// readback lists the files whose mode, read back through Stat of the raw
+	// file system after the set-up's Chmod, was not the mode asked for (putFile)
+	readback []string
 }
 
 var (
@@ -327,9 +339,19 @@ func specialName(m uint32) string {
 // The set-up goes through the code under test too (WriteFile, Chmod of the
 // innermost file system), so it must not rely on the very step a shortcut
 // would skip: the mode is reached by a route on which every Chmod changes the
-// rwx bits (0 first, then the mode wanted), and the state reached is read back
-// - a start state that is not the one the scenario names is a harness error,
-// never a silently different scenario.
+// rwx bits (0 first, then the mode wanted), and the state reached is read back.
+//
+// General lesson (round 11): an oracle that learns the EXPECTED value through
+// the same accessor as the code under test (here: the mode of the source
+// through Stat().Mode() of the source's file system) is blind to a defect of
+// that accessor - both sides of its comparison pass through the same
+// projection. What the set-up ASKED for is known without asking the code
+// under test, so that is the expectation (run: srcPerm), and a read-back that
+// differs from it is not "the harness failed to set up" but an observation
+// about the file system: it is recorded (kit.readback) and judged as a
+// violation of kind mode-readback - the source's permission bits, which the
+// property says a copy carries over, cannot even be read. The run goes on, so
+// that the copy itself is judged against the mode asked for as well.
 func (k *kit) putFile(base string, data []byte, mode fs.FileMode) error {
 	p := k.raw.Join(k.rawDir, base)
 
@@ -351,7 +373,7 @@ func (k *kit) putFile(base string, data []byte, mode fs.FileMode) error {
 	}
 
 	if fi.Mode()&chmodBits != mode&chmodBits {
-		return fmt.Errorf("set-up: %s has mode %v after Chmod(%v)", p, fi.Mode(), mode)
+		k.readback = append(k.readback, fmt.Sprintf("%s(%s): Stat says %#o after Chmod(%#o)", base, k.name, unixBits(fi.Mode()&chmodBits), unixBits(mode&chmodBits)))
 	}
 
 	return nil
@@ -816,7 +838,7 @@ type plan struct {
 	Side      string `json:"side,omitempty"`
 	Primitive string `json:"primitive,omitempty"`
 	Nth       int    `json:"nth_of_primitive_on_side,omitempty"` // 1-based
-	Err       string `json:"error,omitempty"`                    // sentinel | permdenied | errno | linkerror
+	Err       string `json:"error,omitempty"`                    // sentinel | permdenied | errno | linkerror | notexist | exist | enoent
 }
 
 type cons struct {
@@ -879,6 +901,7 @@ type result struct {
 	DstLen     int      `json:"dst_len"`
 	SrcLen     int      `json:"src_len"`
 	SrcChanged bool     `json:"src_changed,omitempty"`
+	Readback   []string `json:"setup_mode_read_back_differs,omitempty"` // files whose Stat did not show the mode the set-up's Chmod was given
 
 	HasherDirty bool       `json:"hasher_holds_bytes_on_entry,omitempty"` // Sum on entry differs from the sum of nothing
 	Pre         *preResult `json:"earlier_call,omitempty"`
@@ -916,6 +939,12 @@ func injected(kind string, fp *failfs.FailParam) error {
 		return errnoInjected
 	case "linkerror":
 		return &os.LinkError{Op: fp.Op, Old: fp.Path, New: fp.Path, Err: errnoInjected}
+	case "notexist":
+		return &fs.PathError{Op: fp.Op, Path: fp.Path, Err: avfs.ErrNoSuchFileOrDir}
+	case "exist":
+		return &fs.PathError{Op: fp.Op, Path: fp.Path, Err: avfs.ErrFileExists}
+	case "enoent":
+		return syscall.ENOENT
 	}
 
 	return errSentinel
@@ -998,6 +1027,11 @@ func run(sc scenario, pl plan) (res result, herr error) {
 		if !sc.plain() {
 			dstBefore = dstKit.snapshot("dst")
 		}
+	}
+
+	res.Readback = append(res.Readback, srcKit.readback...)
+	if dstKit != srcKit {
+		res.Readback = append(res.Readback, dstKit.readback...)
 	}
 
 	var (
@@ -1225,6 +1259,9 @@ func run(sc scenario, pl plan) (res result, herr error) {
 
 		res.ErrIsInj = errors.Is(rerr, errSentinel) ||
 			(pl.Err == "permdenied" && errors.As(rerr, &pe) && pe.Err == avfs.ErrPermDenied) ||
+			(pl.Err == "notexist" && errors.As(rerr, &pe) && pe.Err == avfs.ErrNoSuchFileOrDir) ||
+			(pl.Err == "exist" && errors.As(rerr, &pe) && pe.Err == avfs.ErrFileExists) ||
+			(pl.Err == "enoent" && errors.Is(rerr, syscall.ENOENT)) ||
 			((pl.Err == "errno" || pl.Err == "linkerror") && errors.Is(rerr, errnoInjected))
 	}
 
@@ -1253,9 +1290,12 @@ func run(sc scenario, pl plan) (res result, herr error) {
 			return res, harnessError{fmt.Sprintf("stat of source on %s: %v", sc.SrcFS, serr)}
 		}
 
-		srcPerm = srcInfo.Mode() & chmodBits
+		// The expected permission bits are the ones the set-up asked for, not
+		// the ones Stat of the source's file system reports now (see putFile):
+		// the copy learns the mode through that very Stat.
+		srcPerm = unixMode(sc.SrcMode) & chmodBits
 		res.SrcLen = len(srcNow)
-		res.SrcChanged = !bytes.Equal(srcNow, srcData) || srcPerm != unixMode(sc.SrcMode) || !srcInfo.Mode().IsRegular()
+		res.SrcChanged = !bytes.Equal(srcNow, srcData) || srcInfo.Mode()&chmodBits != srcPerm || !srcInfo.Mode().IsRegular()
 		res.SrcPerm = fmt.Sprintf("%#o", unixBits(srcPerm))
 	}
 
@@ -1618,6 +1658,12 @@ func inject(kind string, fp *failfs.FailParam) error {
 		return syscall.EIO
 	case "linkerror":
 		return &os.LinkError{Op: fp.Op, Old: fp.Path, New: fp.Path, Err: syscall.EIO}
+	case "notexist":
+		return &fs.PathError{Op: fp.Op, Path: fp.Path, Err: avfs.ErrNoSuchFileOrDir}
+	case "exist":
+		return &fs.PathError{Op: fp.Op, Path: fp.Path, Err: avfs.ErrFileExists}
+	case "enoent":
+		return syscall.ENOENT
 	}
 	return errors.New("injected")
 }
@@ -1692,7 +1738,7 @@ func put(t *testing.T, v avfs.VFS, p string, data []byte, mode fs.FileMode) {
 	must(t, v.Chmod(p, 0)) // every Chmod of the set-up changes the rwx bits
 	must(t, v.Chmod(p, mode))
 	if fi, err := v.Stat(p); err != nil || fi.Mode()&chmodBits != mode&chmodBits {
-		t.Fatalf("set-up: %%s has mode %%v after Chmod(%%v) (%%v)", p, fi.Mode(), mode, err)
+		t.Errorf("%%s: Stat shows mode %%v after Chmod(%%v) (%%v): a copy reads the source's mode through it", p, fi.Mode(), mode, err)
 	}
 }
 
@@ -1829,8 +1875,7 @@ func TestC16Replay(t *testing.T) {
 	// nil error: destination (links followed) is a regular file with the bytes and the permission bits of the source file
 	want, rerr := srcRaw.ReadFile(srcRaw.Join(srcRawDir, "src.bin"))
 	must(t, rerr)
-	si, serr := srcRaw.Stat(srcRaw.Join(srcRawDir, "src.bin"))
-	must(t, serr)
+	wantMode := fs.FileMode(srcMode) & chmodBits // the mode the set-up asked for, not the one Stat of the source's file system reports
 	if isCopy {
 		di, derr := dstRaw.Stat(dstRaw.Join(dstRawDir, "dst.bin"))
 		if derr != nil || !di.Mode().IsRegular() {
@@ -1840,8 +1885,8 @@ func TestC16Replay(t *testing.T) {
 		if gerr != nil || !bytes.Equal(got, want) {
 			t.Fatalf("nil error but the destination holds %%d bytes that differ from the %%d of the source (%%v)", len(got), len(want), gerr)
 		}
-		if di.Mode()&chmodBits != si.Mode()&chmodBits { // rwx and setuid, setgid, sticky: the bits Chmod carries
-			t.Fatalf("nil error but the destination has mode %%v, the source file %%v", di.Mode(), si.Mode())
+		if di.Mode()&chmodBits != wantMode { // rwx and setuid, setgid, sticky: the bits Chmod carries
+			t.Fatalf("nil error but the destination has mode %%v, the source file was given %%v", di.Mode(), wantMode)
 		}
 	}
 	if d := sha512.Sum512(want); withDigest && !bytes.Equal(sum, d[:]) || !withDigest && len(sum) != 0 {
@@ -1937,17 +1982,57 @@ var errKindsBelow = []string{"errno", "linkerror"}
 
 var errKindsAll = append(append([]string{}, errKinds...), errKindsBelow...)
 
+// errKindsClass are injected values that belong to one of the CLASSES callers
+// test with errors.Is: fs.ErrNotExist (as *fs.PathError and as a bare ENOENT),
+// fs.ErrExist (fs.ErrPermission is "permdenied" above).
+//
+// General lesson (round 11): code that handles errors rarely treats them all
+// alike - it asks errors.Is(err, fs.ErrNotExist) / os.IsExist(err) and then
+// "tolerates" the case it believes harmless (a file that is already gone, a
+// directory that is already there). Such a branch is entered only by a value
+// of that class; an opaque sentinel or an EIO never reaches it. So the class
+// of the injected value is part of the error-kind dimension, at every
+// consultation, above a wrapper as well as below it.
+var errKindsClass = []string{"notexist", "exist", "enoent"}
+
+// classAllVariants: all class values for every function variant and every
+// scenario (thorough). Quick: the sha512 variants only (same reason as
+// belowAllVariants) - "notexist" in every scenario that has fault plans,
+// "exist" in the plain CopyFileHash scenarios (file to file, shortest names,
+// fresh hasher), the bare "enoent" not at all.
+var classAllVariants bool
+
+func errKindsClassFor(sc scenario) []string {
+	switch {
+	case classAllVariants:
+		return errKindsClass
+	case sc.Hasher != "sha512":
+		return nil
+	case sc.Func == "CopyFileHash" && sc.plain() && sc.spelling() == "" && sc.Before == nil:
+		return errKindsClass[:2]
+	}
+
+	return errKindsClass[:1]
+}
+
+const errKindsClassQuickText = "quick: sha512 variants only, notexist in every scenario with fault plans, exist in the plain CopyFileHash scenarios, enoent not; thorough: all three, every variant, every scenario with fault plans"
+
 // belowAllVariants: the further values for every function variant (thorough)
 // or for the sha512 variants only (quick: CopyFile is CopyFileHash with a nil
 // hasher, the sha512 variant makes every call the others make).
 var belowAllVariants bool
 
 func errKindsFor(sc scenario) []string {
+	ks := errKinds
 	if (seamInside(sc.SrcFS) || seamInside(sc.DstFS)) && (belowAllVariants || sc.Hasher == "sha512") {
-		return errKindsAll
+		ks = errKindsAll
 	}
 
-	return errKinds
+	if cl := errKindsClassFor(sc); len(cl) > 0 {
+		ks = append(append([]string{}, ks...), cl...)
+	}
+
+	return ks
 }
 
 // checkConverse applies oracle (c) and the no-panic requirement to one run.
@@ -2084,6 +2169,16 @@ func explore(sc scenario, bk *book, st *stats) (result, error) {
 	if base.Outcome == "returned" && !base.ErrNil && sc.possible() {
 		bk.add(sc, "-", "none", "error-without-fault", map[string]string{"err": base.ErrKind},
 			func() any { return replayObj(sc, nofault, base.trace, base, "nil error: nothing failed") })
+	}
+
+	// (h) the start state itself: the mode the set-up's Chmod was given is the
+	// mode Stat of that file system shows (see putFile). Judged once per
+	// scenario, on the fault-free run.
+	if len(base.Readback) > 0 {
+		bk.add(sc, "-", "none", "mode-readback", map[string]string{"readback": base.Readback[0]},
+			func() any {
+				return replayObj(sc, nofault, base.trace, base, "Stat of a file shows the permission bits its Chmod was given: a copy reads the source's mode through it")
+			})
 	}
 
 	checkConverse(bk, sc, nofault, base.trace, base)
@@ -2896,6 +2991,7 @@ func main() {
 	verifrt.SetMode(verifrt.ModeSeq)
 
 	belowAllVariants = *tier != "quick"
+	classAllVariants = *tier != "quick"
 
 	_ = avfs.SetUMask(0o022)
 
@@ -3044,7 +3140,8 @@ func main() {
 	mds := modeSpaceFor(*tier)
 	seamText := "fs stacks whose FailFS lies below the wrapper: " + fmt.Sprint(seamStacks(pairNames, st.hashFS)) + "; on the pairs that hold one the injected error is one of " + fmt.Sprint(errKindsAll) +
 		" (opaque error, *fs.PathError, bare errno, *os.LinkError; the last two for " + map[bool]string{true: "every function variant", false: "the sha512 variants"}[belowAllVariants] +
-		"), elsewhere one of " + fmt.Sprint(errKinds)
+		"), elsewhere one of " + fmt.Sprint(errKinds) + "; on every fs pair additionally the values of an error class callers test with errors.Is: " + fmt.Sprint(errKindsClass) +
+		" (*fs.PathError{ENOENT} and bare ENOENT: fs.ErrNotExist; *fs.PathError{EEXIST}: fs.ErrExist; permdenied is fs.ErrPermission) - " + errKindsClassQuickText
 	spellText := "every (spelling of the source operand, spelling of the destination operand) of " + fmt.Sprint(spellNames(spl.spellings)) +
 		" except clean/clean (= everything else) x every fs pair x sizes " + fmt.Sprint(spl.sizes) + " x destination {absent, present} x " + spl.faultsText +
 		"; HashFile: every spelling of its operand on every hashfile fs"
@@ -3062,7 +3159,7 @@ func main() {
 		"evaluations":         st.runs,
 		"distinct_nontrivial": len(st.faultClasses),
 		"rule": "evaluations = executions of a scenario (the real CopyFile/CopyFileHash/HashFile, preceded in a two-call history by the earlier call) on fresh instances (2 fault-free runs per scenario - 1 for a scenario that is run fault-free only - + one run per " +
-			"(consultation index k of the fault-free trace, error E in {sentinel, PathError{ErrPermDenied}; also bare errno and *os.LinkError where the seam lies below a wrapper}) + for the head of a two-call history one run per (consultation index k of the earlier call, E)); distinct_nontrivial = number of distinct " +
+			"(consultation index k of the fault-free trace, error E in {sentinel, PathError{ErrPermDenied}; also bare errno and *os.LinkError where the seam lies below a wrapper; also values of the classes fs.ErrNotExist / fs.ErrExist: " + errKindsClassQuickText + "}) + for the head of a two-call history one run per (consultation index k of the earlier call, E)); distinct_nontrivial = number of distinct " +
 			"(function variant, side, FnVFS primitive, E) fault classes whose injected consultation was actually reached and returned E in the run " +
 			"(verified against the run's own trace)",
 		"samples":                       st.samples,
@@ -3080,6 +3177,7 @@ func main() {
 		"hashfile_fs":                                st.hashFS,
 		"errors_injected":                            errKinds,
 		"errors_injected_below_a_wrapper":            errKindsAll,
+		"errors_injected_of_a_class(errors.Is)":      errKindsClass,
 		"seam_below_wrapper":                         seamText,
 		"mode_space":                                 mds.text,
 		"mode_source_modes(unix octal)":              octals(mds.modes()),
@@ -3126,7 +3224,7 @@ func main() {
 			"FailFS is the fault-injection seam: a failure is a non-nil return of the FailFunc before the base primitive runs; partial writes/short reads of a base file system are not modelled",
 			"source sizes " + fmt.Sprint(sizes) + " with one deterministic non-periodic content; destination absent or present (longer, mode 0660); source mode 0644/0400 (fault-free also 0666/0777); administrator user; umask 022",
 			"modes: " + mds.text + "; 'the source's permission bits' is judged on the twelve bits chmod carries (rwx and setuid, setgid, sticky), which every file system of the library stores; " +
-				"the start states are planted through the innermost file system and read back (a mode that did not take is a harness error)",
+				"the start states are planted through the innermost file system and read back; the permission bits expected at the destination are the ones the set-up's Chmod was given, not the ones Stat of the source's file system reports; a read-back that differs from the mode asked for is a violation (kind mode-readback), not a harness error",
 			"layers: " + seamText + "; FailFS(wrapper(x)) everywhere else; no stack with two wrappers above the seam; a shared instance is never one with its seam inside (its two sides could not be told apart); " +
 				"an injected *fs.PathError / *os.LinkError names the path the failing primitive was given, or - for a primitive of an open file that has none (Sync) - the path of that side's file in the name space of the seam",
 			"shapes: source path of kinds " + fmt.Sprint(sh.srcKinds) + " x destination path of kinds " + fmt.Sprint(sh.dstKinds) + " x sizes " + fmt.Sprint(sh.sizes) +
